@@ -157,3 +157,30 @@ package crypto
 //@ ensures !has(PubKeyUnmarshallers, ret(GetType, 0, 0)) ==> result1 == ErrBadKeyType && result0 == nil
 //@ ensures result1 != nil ==> result0 == nil
 //@ noframe
+
+// ---- RSA size window: generation, private-key and public-key unmarshalling accept exactly the same sizes
+// [MinRsaKeyBits, maxRsaKeyBits] (a key this library produces or loads always has a public half that
+// round-trips through MarshalPublicKey / UnmarshalPublicKey)
+
+//@ func GenerateRSAKeyPair
+//@ prop C08
+//@ ensures bits < MinRsaKeyBits || bits > maxRsaKeyBits ==> !called(GenerateKey, 0) && result0 == nil && result1 == nil
+//@ ensures MinRsaKeyBits <= bits && bits <= maxRsaKeyBits ==> called(GenerateKey, 0) && arg(GenerateKey, 0, 1) == bits
+//@ ensures MinRsaKeyBits <= bits && bits <= maxRsaKeyBits && ret(GenerateKey, 0, 1) == nil ==> result2 == nil && result0 != nil && result1 != nil
+//@ noframe
+
+//@ func UnmarshalRsaPrivateKey
+//@ prop C08
+//@ inline HandlePanic
+//@ ensures called(ParsePKCS1PrivateKey, 0) && arg(ParsePKCS1PrivateKey, 0, 0) == b
+//@ ensures ret(ParsePKCS1PrivateKey, 0, 1) == nil && MinRsaKeyBits <= sk.N.BitLen() && sk.N.BitLen() <= maxRsaKeyBits ==> err == nil && key != nil
+//@ ensures err == nil ==> ret(ParsePKCS1PrivateKey, 0, 1) == nil && MinRsaKeyBits <= sk.N.BitLen() && sk.N.BitLen() <= maxRsaKeyBits
+//@ noframe
+
+//@ func UnmarshalRsaPublicKey
+//@ prop C08
+//@ inline HandlePanic
+//@ ensures called(ParsePKIXPublicKey, 0) && arg(ParsePKIXPublicKey, 0, 0) == b
+//@ ensures ret(ParsePKIXPublicKey, 0, 1) == nil && ok && MinRsaKeyBits <= pk.N.BitLen() && pk.N.BitLen() <= maxRsaKeyBits ==> err == nil && key != nil
+//@ ensures err == nil ==> ret(ParsePKIXPublicKey, 0, 1) == nil && ok && MinRsaKeyBits <= pk.N.BitLen() && pk.N.BitLen() <= maxRsaKeyBits
+//@ noframe
